@@ -77,10 +77,11 @@ func seqProfile(prop string, g *Gen, cfg *Config, rng *SplitMix) (steps int) {
 		g.Text = "unicode"
 		g.BadBias = 25
 	case "C14":
+		g.W["compact"] = 10
 		g.W["new_task"] = 25
 		g.W["new_epic"] = 10
 		g.W["set"] = 30
-		g.W["prune"] = 7
+		g.W["prune"] = 10
 		g.W["plan"] = 5
 		g.BadBias = 30
 	case "C16":
@@ -154,10 +155,38 @@ func runSeqGenerated(bin, prop string, seed uint64) *RunReport {
 			r.ExecStep(st)
 		}
 	}
+	mergedCycle := false
 	for i := 0; i < n; i++ {
 		st := g.Next(r.M)
 		if prop == "C09" && len(r.M.Pruned) > 0 && rng.Chance(1, 8) {
 			st = Step{Disk: &DiskOp{Kind: "merge_pruned", N: rng.Intn(64), Pos: rng.Intn(1 << 20)}}
+		}
+		if prop == "C14" && !mergedCycle && rng.Chance(1, 10) {
+			// motif: a task moves between epics, its old epic empties and is
+			// pruned, the log is compacted
+			mergedCycle = true
+			base := len(r.M.Order)
+			e1, e2, t := fmt.Sprintf("#%d", base), fmt.Sprintf("#%d", base+1), fmt.Sprintf("#%d", base+2)
+			motif := []Step{
+				{Cmd: &Cmd{Op: "new_epic", Title: sp("old home")}}, {Cmd: &Cmd{Op: "new_epic", Title: sp("new home")}},
+				{Cmd: &Cmd{Op: "new_task", Title: sp("the mover"), Epic: &e1}}, {Cmd: &Cmd{Op: "set", ID: t, Epic: &e2}},
+				{Cmd: &Cmd{Op: "prune", Yes: true}}, {Cmd: &Cmd{Op: "compact"}}, {Cmd: &Cmd{Op: "list", LAll: true}},
+			}
+			for _, s := range motif {
+				sc.Steps = append(sc.Steps, s)
+				r.ExecStep(s)
+			}
+			continue
+		}
+		if prop == "C09" && !mergedCycle && i > n/2 && rng.Chance(1, 6) {
+			// a merge-made dependency cycle among an epic's open children, then
+			// prune (dry and applied): the epic still has children
+			mergedCycle = true
+			for _, s := range []Step{{Disk: &DiskOp{Kind: "merge_cycle"}}, {Cmd: &Cmd{Op: "prune"}}, {Cmd: &Cmd{Op: "prune", Yes: true}}} {
+				sc.Steps = append(sc.Steps, s)
+				r.ExecStep(s)
+			}
+			continue
 		}
 		sc.Steps = append(sc.Steps, st)
 		r.ExecStep(st)
